@@ -12,7 +12,7 @@ pub fn prop() -> Prop {
     Prop {
         id: "C08",
         level: "exploration",
-        rule: "(1) all token strings of length <= 3 over the full vocabulary (keywords, operators, delimiters, identifier spellings that embed/prefix/suffix keywords, numbers, strings) rendered with every per-gap separator choice from {nothing where maximal munch allows, space, newline, line comment}: the token stream must be the concatenation of the tokens of the pieces, every piece one token spanning exactly its text, keywords not identifiers, lexeme kept; (2) all strings of length <= 3 over {a, é, _, 1, 0, .} against a reference maximal-munch lexer; (3) all string contents of length <= 4 over 8 characters encoded with the documented escapes: the parsed String node must equal the content; all raw literal bodies of length <= 4 over {a, quote, backslash, n} followed by more input: the literal ends at the first unescaped quote and decodes as the reference decoder says; (4) nothing is dropped: a text with an illegal character, an unterminated string or a lone & or | is rejected by parse, and between consecutive token spans only white space and comments occur. Non-trivial = more than one token or a literal with an escape; distinct = distinct texts",
+        rule: "(1) all token strings of length <= 3 over the full vocabulary (keywords, operators, delimiters, identifier spellings that embed/prefix/suffix keywords, numbers, strings) rendered with every per-gap separator choice from {nothing where maximal munch allows, space, newline, line comment}: the token stream must be the concatenation of the tokens of the pieces, every piece one token spanning exactly its text, keywords not identifiers, lexeme kept; (2) all strings of length <= 3 over {a, é, _, 1, 0, .} against a reference maximal-munch lexer; (3) all string contents of length <= 4 over 8 characters encoded with the documented escapes: the parsed String node must equal the content; all raw literal bodies of length <= 4 over {a, quote, backslash, n} followed by more input: the literal ends at the first unescaped quote and decodes as the reference decoder says; (3c) token-length ladder: one identifier / digit run / fraction / string literal / comment / white-space run of every length around each power of two up to 1025 (8193 thorough), with one escape or wide character at every position near a multiple of 8 and at both ends; (4) nothing is dropped: a text with an illegal character, an unterminated string or a lone & or | is rejected by parse, and between consecutive token spans only white space and comments occur. Non-trivial = more than one token or a literal with an escape; distinct = distinct texts",
         assumptions: &[
             "token kinds are compared through their Debug rendering, learnt from single-token inputs (no kind name is hard-coded); the documented token shapes are those of printer::may_touch and the reference lexer in this file",
         ],
@@ -242,8 +242,93 @@ fn all_strings(alpha: &[&str], max: usize, f: &mut dyn FnMut(&str) -> bool) {
     go(alpha, max, &mut String::new(), f);
 }
 
+/// Token-length ladder: one token of every length around each power of two (identifier, keyword-prefixed
+/// identifier, digits, fraction digits, string literal, comment, white-space run), with one special
+/// character (escape, wide character) at every position near a multiple of 8 and at both ends (every
+/// position for short tokens). The tree must be exactly the one token.
+fn length_ladder(sh: &mut Shard) {
+    let tier = sh.cfg.tier;
+    let kmax = if tier == Tier::Quick { 10 } else { 13 };
+    let mut lens: Vec<usize> = vec![1, 2, 3, 5, 6, 10, 18, 19, 20, 21, 100];
+    for k in 2..=kmax {
+        let n = 1usize << k;
+        lens.extend([n - 1, n, n + 1]);
+    }
+    lens.sort();
+    lens.dedup();
+    let mut one = |sh: &mut Shard, text: String, want: Result<Vec<Stmt>, ()>, what: &str| {
+        if !sh.mine() {
+            return;
+        }
+        let t = text.clone();
+        sh.begin(&|| if t.len() > 200 { format!("{} … ({} bytes)", t.chars().take(80).collect::<String>(), t.len()) } else { t.clone() });
+        sh.count("family:length-ladder");
+        sh.nontrivial(&text);
+        match (parse_guarded(&text), &want) {
+            (Parsed::Ok(ast), Ok(w)) if &ast == w => {}
+            (Parsed::Ok(ast), Ok(_)) => {
+                let shown: String = format!("{ast:?}").chars().take(300).collect();
+                fail(sh, "length-ladder", &text, format!("{what}: the parser returned {shown}"))
+            }
+            (Parsed::Ok(ast), Err(())) => {
+                let shown: String = format!("{ast:?}").chars().take(300).collect();
+                fail(sh, "length-ladder", &text, format!("{what}: must be refused, was accepted as {shown}"))
+            }
+            (Parsed::Err(_), Err(())) => {}
+            (Parsed::Err(e), Ok(_)) => fail(sh, "length-ladder", &text, format!("{what}: rejected: {e}")),
+            (Parsed::Panic(p), _) => fail(sh, "length-ladder", &text, format!("{what}: panic: {p}")),
+        }
+    };
+    for len in lens {
+        let positions: Vec<usize> = (0..len).filter(|p| len <= 70 || *p < 2 || *p + 2 >= len || p % 8 <= 1 || p % 8 == 7).collect();
+        // identifiers
+        let name: String = std::iter::once('x').chain((1..len).map(|i| (b'a' + (i % 26) as u8) as char)).collect();
+        one(sh, name.clone(), Ok(vec![Stmt::Expr(Expr::Identifier(name.clone()))]), "identifier");
+        one(sh, format!("als{name}"), Ok(vec![Stmt::Expr(Expr::Identifier(format!("als{name}")))]), "identifier that starts with a keyword");
+        one(sh, format!("{name}_9"), Ok(vec![Stmt::Expr(Expr::Identifier(format!("{name}_9")))]), "identifier with underscore and digit");
+        for p in &positions {
+            if *p == 0 {
+                continue;
+            }
+            let n2: String = name.chars().enumerate().map(|(i, c)| if i == *p { 'é' } else { c }).collect();
+            one(sh, n2.clone(), Ok(vec![Stmt::Expr(Expr::Identifier(n2.clone()))]), "identifier with an accented letter");
+        }
+        // digits: up to 18 digits denote themselves, more than 19 cannot be an integer
+        let digits: String = (0..len).map(|i| (b'1' + (i % 9) as u8) as char).collect();
+        if len <= 18 {
+            one(sh, digits.clone(), Ok(vec![Stmt::Expr(Expr::Int { value: digits.parse().unwrap() })]), "integer literal");
+        } else if len >= 20 {
+            one(sh, digits.clone(), Err(()), "integer literal beyond the range");
+        }
+        if len <= 300 {
+            let f = format!("1.{digits}");
+            one(sh, f.clone(), Ok(vec![Stmt::Expr(Expr::Float { value: f.parse().unwrap() })]), "float literal, long fraction");
+            let f = format!("{digits}.5");
+            one(sh, f.clone(), Ok(vec![Stmt::Expr(Expr::Float { value: f.parse().unwrap() })]), "float literal, long integer part");
+        }
+        // string literals: plain, and with one special character at position p
+        let plain: String = (0..len).map(|i| (b'a' + (i % 26) as u8) as char).collect();
+        one(sh, escape_string(&plain), Ok(vec![Stmt::Expr(Expr::String { value: plain.clone() })]), "string literal");
+        for p in &positions {
+            for special in ['"', '\\', '\n', '\t', 'é', '😀'] {
+                let content: String = plain.chars().enumerate().map(|(i, c)| if i == *p { special } else { c }).collect();
+                one(sh, escape_string(&content), Ok(vec![Stmt::Expr(Expr::String { value: content.clone() })]), "string literal with one special character");
+            }
+        }
+        // comments and white space of that length around a token
+        for wide_at in [None, Some(len / 2), Some(len.saturating_sub(1))] {
+            let c: String = plain.chars().enumerate().map(|(i, ch)| if Some(i) == wide_at { '€' } else { ch }).collect();
+            one(sh, format!("// {c}\n7"), Ok(vec![Stmt::Expr(Expr::Int { value: 7 })]), "comment before a token");
+            one(sh, format!("7 // {c}"), Ok(vec![Stmt::Expr(Expr::Int { value: 7 })]), "comment at the end of the input");
+        }
+        let ws: String = (0..len).map(|i| [' ', '\t', '\n', '\r'][i % 4]).collect();
+        one(sh, format!("{ws}7{ws}"), Ok(vec![Stmt::Expr(Expr::Int { value: 7 })]), "white space around a token");
+    }
+}
+
 fn run(sh: &mut Shard) {
     let tier = sh.cfg.tier;
+    length_ladder(sh);
     let vocab = vocabulary();
     // anchors
     let mut singles: std::collections::HashMap<&str, String> = std::collections::HashMap::new();
@@ -540,7 +625,7 @@ fn replay(sh: &mut Shard, case: &Value) {
 }
 
 fn vacuity(m: &Merged) -> Option<String> {
-    for fam in ["sequences", "words", "string-contents", "raw-bodies", "illegal", "spans"] {
+    for fam in ["sequences", "words", "length-ladder", "string-contents", "raw-bodies", "illegal", "spans"] {
         if m.counters.get(&format!("family:{fam}")).copied().unwrap_or(0) == 0 {
             return Some(format!("family {fam} produced no case"));
         }
